@@ -856,8 +856,10 @@ where
         } else {
             let next_symbol = symbol + Symbol::one();
             self.symbol = Some(next_symbol);
+            // The right-sided cumulative of `symbol` is the left-sided cumulative of
+            // `next_symbol`, i.e., the CDF has to be evaluated at `next_symbol - 0.5`.
             let non_leaky: Probability = (self.model.quantizer.free_weight
-                * self.model.inner.distribution((symbol).into() - 0.5))
+                * self.model.inner.distribution(symbol.into() + 0.5))
             .as_();
             non_leaky + slack(next_symbol, self.model.quantizer.min_symbol_inclusive)
         };
